@@ -5,6 +5,8 @@
 //                   digits/point/neg come from DoubleToStringConverter::DoubleToAscii (public API): the model lays them out
 //   U16|I16|U32|I32|U64|I64 <hex value (two's complement)>   "<text hex> <readback hex> <reserved ok>"
 //   P <hex>         pointer: "<text hex> <reserved ok>"
+//   RF <text hex>   FilePiece::ReadFloat on the given text (followed by a newline): "<bits>" or PERR
+//   RD <text hex>   FilePiece::ReadDouble likewise
 //   SWEEPF <start> <count> <stride> <threads>   float bit patterns start, start+stride, ...: checks, for every pattern,
 //                   length <= ToStringBuf<float>::kBytes, no byte written beyond the reserved bytes, ReadFloat(text) bit-identical
 //                   (NaN: NaN); answer "<n checked> <max length> <first failing bits or ->"
@@ -125,6 +127,20 @@ template <class T> void case_int(const std::string &arg, std::ostream &o) {
     if (std::numeric_limits<T>::is_signed) back = (uint64_t)(T)f.ReadLong(); else back = (uint64_t)(T)f.ReadULong();
   } catch (const std::exception &) { back = 0xdeadbeefdeadbeefULL; ok = false; }
   o << hexs(buf, len) << ' ' << std::hex << (uint64_t)(typename std::make_unsigned<T>::type)back << ' ' << (ok ? "ok" : "BAD");
+}
+
+std::string unhex(const std::string &s) {
+  std::string r(s.size() / 2, 0);
+  for (size_t i = 0; i + 1 < s.size(); i += 2) r[i / 2] = (char)strtoul(s.substr(i, 2).c_str(), NULL, 16);
+  return r;
+}
+void case_read(const std::string &arg, std::ostream &o, bool dbl) {
+  std::istringstream is(unhex(arg) + "\n");
+  util::FilePiece f(is, "c19", 4096);
+  try {
+    if (dbl) { F64 v; v.f = f.ReadDouble(); o << std::hex << v.i; }
+    else { F32 v; v.f = f.ReadFloat(); o << std::hex << v.i; }
+  } catch (const util::ParseNumberException &) { o << "PERR"; }
 }
 
 void case_ptr(const std::string &arg, std::ostream &o) {
@@ -285,6 +301,8 @@ int main() {
       else if (cmd == "U64") case_int<uint64_t>(a, o);
       else if (cmd == "I64") case_int<int64_t>(a, o);
       else if (cmd == "P") case_ptr(a, o);
+      else if (cmd == "RF") case_read(a, o, false);
+      else if (cmd == "RD") case_read(a, o, true);
       else if (cmd == "SWEEPF") sweep_float(strtoull(a.c_str(), NULL, 16), strtoull(b.c_str(), NULL, 16), strtoull(c.c_str(), NULL, 16), atoi(d.c_str()), o);
       else if (cmd == "SWEEPD") sweep_double(strtoull(a.c_str(), NULL, 16), strtoull(b.c_str(), NULL, 16), atoi(c.c_str()), o);
       else if (cmd == "SWEEPI") {
